@@ -86,6 +86,10 @@ def main():
                 if not ok:
                     driver_ok = False
                     broken.append({"obligation": "driver build", "detail": core.failing_decls(out) or out[-1500:]})
+                    # salvage the drivers that do not depend on the broken regenerated module (spec-only drivers):
+                    # the failing-input search needs them
+                    for one in drv:
+                        core.lake_build([one])
                 if tier == "thorough":
                     # re-elaborate the property's modules from scratch
                     for pm in prop_modules:
